@@ -1,5 +1,5 @@
 """Translator for C19 (third part): the symbol handling of evaluate() in /repo/pyglove/core/coding/execution.py
--> coq/Gen/EvalOut.v
+-> coq/Gen/EvalOutPlan.v
 
 It reads, statement by statement (ast.dump must match a recognised shape exactly; anything else raises TranslationError):
   * context() / get_context(): an inner context starts from the enclosing one and updates it with its own symbols;
